@@ -63,6 +63,7 @@ def run(tier):
     from props import c03 as c03mod
     jobs = [["recon-x", "--grid", 360, "--nbhd", 10, "--targets", "arduino"], ["tz2025b", "--grid", 360, "--nbhd", 10, "--targets", "arduino"],
             ["features", "--grid", 360 if q else 60, "--nbhd", 10, "--targets", "arduino"]]    # features.zi has a zone-year that needs all five basic slots
+    jobs.append(["unsupported", "--grid", 360 if q else 60, "--nbhd", 10, "--targets", "arduino"])   # whatever the compiler admits of the constructs it documents as unsupported
     # "compiler-generated" is not only the default year range: seed-derived subsets compiled for 2000..2038 / 2010..2030 as well
     jobs += [["mutant", "--seed", seed, "--index", i, "--grid", 360, "--nbhd", 10, "--targets", "arduino"] for i in range(6 if q else 60)]
     gen_zones = 0
@@ -71,6 +72,10 @@ def run(tier):
             v.inconclusive_because("generated tables (%s): %s" % (argv[0], inc))
         for viol in r["violations"]:
             k = viol["key"]
+            if ":compiler-died:" in k or k.endswith(":generated-code-does-not-compile"):
+                # no tables, nothing observed: C03 judges the compiler; here the buffer / safety clause stays undecided for this source
+                v.inconclusive_because("generated tables (%s): the compiler did not produce tables (%s)" % (argv[0], k))
+                continue
             if k.endswith((":transition-pool-high-water", ":basic-transition-dropped", ":basic-cache-invariant", ":generated-table-sweep-crash")) \
                     or k.startswith(("asan:", "ubsan:")):
                 v.violation("c09:generated:" + k.split(":", 1)[1] if k.startswith("c03:") else k,
